@@ -50,4 +50,4 @@ m = {
   {'property_id': 'C20', 'reason': 'well-formedness is decided by the compiler per instantiation; there is no execution to simulate or inject faults into (DESIGN.md section 4 C20)'},
  ],
 }
-json.dump(m, open('MANIFEST.json', 'w'), indent=1)
+json.dump(m, open(__import__('os').path.join(__import__('os').path.dirname(__import__('os').path.dirname(__import__('os').path.abspath(__file__))), 'MANIFEST.json'), 'w'), indent=1)
